@@ -380,15 +380,12 @@ func c07Hist(c *mc.Ctx, k c07Case, _ func(slots int) []int) {
 				if n == 0 {
 					continue
 				}
-				before := m.digest()
 				if err := m.load(kk, ids, "fail"); err == nil {
 					bad("bad-load-accepted", "load #%d with mismatched key/value lengths returned nil", si)
 					return
 				}
-				if m.digest() != before {
-					bad("failed-load-changed-state", "load #%d failed but changed the map", si)
-					return
-				}
+				// "a failed load changes nothing": nothing a user can observe (checked by the probes below); what it does to its
+				// private buffers is its own business
 				if si == 0 && !k.Fresh {
 					// never successfully loaded: every key must be absent
 					if !probeAll(fmt.Sprintf("after failed load #%d on a never-loaded map", si), 1) {
@@ -416,6 +413,16 @@ func c07Hist(c *mc.Ctx, k c07Case, _ func(slots int) []int) {
 				model[kk[i]] = ids[i]
 			}
 			if !probeAll(fmt.Sprintf("after load #%d (%d keys, %d slots)", si, n, ns), slots) {
+				return
+			}
+		}
+		// last step of every history: an input that some implementations reject (the same key twice).  Whatever the load
+		// does with it when it accepts it is outside the property (keys are distinct); IF it rejects it, that is a failed
+		// load and must change nothing
+		step = len(k.Loads)
+		dk := []string{c07Keys[1], c07Keys[2], c07Keys[1]}
+		if err := m.load(dk, []int{901, 902, 903}, "slice"); err != nil {
+			if !probeAll("after a load that was rejected (it named a key twice)", slots) {
 				return
 			}
 		}
